@@ -257,6 +257,10 @@ func c08Guards(c *Ctx) {
 				c.R.Discharge("C08-R3", key, c.pos(in), "execution result unused")
 				return
 			}
+			guardSliceScope = nil
+			for _, g := range c.P.FuncsIn("core") {
+				guardSliceScope = append(guardSliceScope, ssau.WithAnon(g)...)
+			}
 			bad := guardSlice(exe, 0, "", map[ssa.Value]bool{})
 			c.R.Check(len(bad) == 0, "C08-R3", key, c.pos(in), "only .Bs and .Events.Traces.Messages are read from the guard's execution", "guard execution flows beyond Bs/Traces: "+strings.Join(bad, "; "))
 		})
@@ -298,12 +302,52 @@ func guardSlice(v ssa.Value, depth int, path string, seen map[ssa.Value]bool) []
 			if u.Val == v {
 				bad = append(bad, "stores execution"+path)
 			}
+		case *ssa.Return:
+			// a helper that runs the guard hands the execution to its callers: the slice goes on at every place the
+			// helper runs (its static calls and the calls of its method value), which must all be known
+			handed := false
+			if path == "" && guardSliceScope != nil && u.Parent() != nil {
+				sites, complete := valueCallSites(u.Parent(), guardSliceScope)
+				if complete && len(sites) > 0 {
+					handed = true
+					for i, res := range u.Results {
+						if res != v {
+							continue
+						}
+						for _, s := range sites {
+							sv := s.Value()
+							if sv == nil {
+								continue // go / defer: the result is dropped
+							}
+							if len(u.Results) == 1 {
+								bad = append(bad, guardSlice(sv, depth+1, path, seen)...)
+								continue
+							}
+							for _, r2 := range ssau.Referrers(sv) {
+								if ex, isEx := r2.(*ssa.Extract); isEx && ex.Index == i {
+									bad = append(bad, guardSlice(ex, depth+1, path, seen)...)
+								} else if !isEx {
+									if _, isDbg := r2.(*ssa.DebugRef); !isDbg {
+										bad = append(bad, fmt.Sprintf("the results of %s are used as a whole by %T", u.Parent().Name(), r2))
+									}
+								}
+							}
+						}
+					}
+				}
+			}
+			if !handed {
+				bad = append(bad, fmt.Sprintf("execution%s used by %T", path, r))
+			}
 		default:
 			bad = append(bad, fmt.Sprintf("execution%s used by %T", path, r))
 		}
 	}
 	return bad
 }
+
+// guardSliceScope: the functions in which the callers of a helper that returns a guard's execution are looked for.
+var guardSliceScope []*ssa.Function
 
 // c08Order: accumulators.  An accumulator is any function of core or of the
 // interpreter that extends one of the ordered record fields (Events.Emitted,
@@ -929,7 +973,7 @@ func c08Step(c *Ctx) {
 			// the value tested is the action's error (or, along other ways, the nil constant: a helper's
 			// `return bs, false, nil`), so "not nil" means the action failed
 			hit, only := false, true
-			for d := range leaves(v) {
+			for _, d := range deepDefsRecords(v, scope) {
 				switch {
 				case d == actErr:
 					hit = true
